@@ -32,7 +32,7 @@ SPEC = {"C01": "Ops.tla, Decls.tla, Lits.tla, StmtRules.tla, Builtins.tla", "C02
         "C11": "Lower.tla", "C12": "Print.tla, Comments.tla, Flow.tla, Headers.tla", "C13": "TypeSyntax.tla (GoTypes.tla)", "C14": "Zero.tla (GoTypes.tla)",
         "C15": "Determinism.tla", "C16": "Builder.tla, Blocks.tla, BlockTrace.tla", "C17": "Total.tla, Builtins.tla", "C18": "Shared.tla", "C19": "TypeMap.tla, TypeMapTrace.tla", "C20": "Cache.tla"}
 DRIVER = {"C01": "c01_04.go, expr.go, decls.go, lits.go, stmtrules.go, builtins.go", "C02": "c01_04.go, c02_flow.go, c02_headers.go, astcanon.go", "C03": "c01_04.go, c08.go", "C04": "c01_04.go",
-          "C05": "c05.go, gotypes.go", "C06": "c06.go", "C07": "c07.go", "C08": "c08.go", "C09": "c09.go", "C10": "c10.go", "C11": "c11.go, c11_exec.go",
+          "C05": "c05.go, gotypes.go", "C06": "c06.go", "C07": "c07.go", "C08": "c08.go", "C09": "c09.go", "C10": "c10.go", "C11": "c11.go, c11_exec.go, c11_tuple.go",
           "C12": "c12.go, c12_comments.go", "C13": "c13.go", "C14": "c14.go", "C15": "c15.go", "C16": "c16.go, c16_trace.go", "C17": "c17.go", "C18": "c18.go",
           "C19": "c19.go", "C20": "c20.go, cmd/stubgo/stubgo.c"}
 
@@ -48,7 +48,7 @@ REMARK = {
 "C08": """Select.tla was validated against `types.LookupFieldOrMethod` on every lookup (S = T). Replayed: `MemberVal`, `MemberRef`, method expressions `(T).m` / `(*T).m`, with addressable / non-addressable / pointer operands. **Round 2:** two more realisations of every graph - types with equal field lists sharing one struct object (`type B A`), and delay-loaded types whose underlying type and methods arrive through `Config.LoadNamed` at the first lookup - were added after two seeded changes slipped through.""",
 "C09": """Histories are replayed with `go/types` on every written file (imports exactly the used packages, names unique, no collision with declared names, references resolve to the intended package). Failing histories are delta-debugged (operations removed, arguments simplified) to a minimal witness whose *shape* is the finding key; five root causes are known findings, two were fixed. **Round 2:** `Visit` (a whole declaration made in the other file between `SetCurFile` and `RestoreCurFile`) and `RefAt` (references from ten syntactic positions, e.g. the key of a map literal) were added after two seeded changes slipped through: `RestoreCurFile` had only been used inside `Cross`, all of whose histories fall under KF-C09-1, and every reference had been a call statement or a variable type. A further position (`tparam`: the constraint of a type parameter) exposed a genuine defect - the used-import scan did not walk type parameter lists - repaired in 4987ba8.""",
 "C10": """S (Flow.tla's Term/TermList/HasBreak transcription and label counters) = T (go/types diagnostics on an independent rendering) on every body, else exit 2. Compared with the builder: number of `missing return`, unused labels, duplicate labels. Forward gotos were added with C02. **Round 2:** configuration `for-if-else-break-9` (condition-less `for`, `if` / `else if` chains, `break`) was added after a seeded change to `hasBreak` (else-if arms not searched) slipped through: no configuration had combined the three with enough operations.""",
-"C11": """R1-R6 are compared structurally (typed canonical tree of the emitted declaration vs the reference lowering rendered as Go; for the `any` member rule after inlining the hoisted `_autoGo_k` temporaries, plus the placement predicate for loop conditions). R5 is judged by value: the emitted construction (`big.NewInt`, `SetString`, `NewRat`, `SetFrac`, wrapped by init functions) is evaluated with math/big. R7 (user-defined range enumerators: iterator-function and `Next()` styles, pointer and value iterators, receivers that Go could range over natively, every loop-variable form, bodies with `break`) and R8 (inline closure calls: 0-2 parameters, variadic with 0-2 extra arguments, 0-2 results, plain / early-return / unused-parameter / mutating bodies) are judged by **execution**: the emitted functions and hand-written plain-Go references (a real range loop over the enumerated sequence, a real closure call) are compiled into one program with instrumented operands and run under three condition schedules; their traces (evaluation order, bound values, results, final values of assigned variables) must be equal. For assignment-form loop variables over `Next()` enumerators the reference is the documented loop (the final failing `Next()` overwrites the variable), not Go's native range.""",
+"C11": """R1-R6 are compared structurally (typed canonical tree of the emitted declaration vs the reference lowering rendered as Go; for the `any` member rule after inlining the hoisted `_autoGo_k` temporaries, plus the placement predicate for loop conditions). R5 is judged by value: the emitted construction (`big.NewInt`, `SetString`, `NewRat`, `SetFrac`, wrapped by init functions) is evaluated with math/big. R7 (user-defined range enumerators: iterator-function and `Next()` styles, pointer and value iterators, receivers that Go could range over natively, every loop-variable form, bodies with `break`) and R8 (inline closure calls: 0-2 parameters, variadic with 0-2 extra arguments, 0-2 results, plain / early-return / unused-parameter / mutating bodies) are judged by **execution**: the emitted functions and hand-written plain-Go references (a real range loop over the enumerated sequence, a real closure call) are compiled into one program with instrumented operands and run under three condition schedules; their traces (evaluation order, bound values, results, final values of assigned variables) must be equal. For assignment-form loop variables over `Next()` enumerators the reference is the documented loop (the final failing `Next()` overwrites the variable), not Go's native range. **R9 (tuple types, added in round 3)**: `NewTuple` with and without names held as a value, a defined type and a pointer; every spelling of a component (`t.0`, `t.X_0`, `t.x`) as value and as assignment target must lower to the ordinal field, `TupleLit` (typed and untyped) and the cast `T(a, ..)` / `T()` to the struct literal; `LookupField` / `IsTupleType` are probed on the same points (207 points; a sabotage that reverses the name-to-ordinal mapping is caught).""",
 "C12": """Part A (Print.tla) is specification-decided: tokens, indispensable blanks, lexer and parser are all in TLA+ and TLC proves the round trip on every enumerated tree; the forked printer must produce that token stream. Part B compares the tree the package holds (`Package.ASTFile`) with the tree parsed from `Package.WriteTo`, and runs Headers.tla's placements (builder-side parentheses). Part C (Comments.tla) models emission order - an `if`/`for` statement is emitted at `End`, after the statements of its body, an if-initialiser when it is complete - so that the model, not the test author, says which statement a comment belongs to; the package is written twice. Part D (not specification-derived) prints position-stripped standard-library files. **Round 2:** configuration `compact-mode-depth3` (the printer's compact mode below an index and in mixed-precedence expressions: `x[x] + x & ^x`) and part E, TypeParams.tla (type parameter lists of generic type declarations: the trailing comma of `[P *int | string,]`, validated against go/parser), were added after two seeded changes slipped through.""",
 "C13": """TLC checks `Parse(Tokens(t)) = t` over the bounded type grammar; `NoParens = TRUE` reproduces the `chan (<-chan T)` defect (fixed, 7fa8cc5). Each term is declared through the builder in every syntactic position across two files, written, re-checked, and the type read back is compared with the original. Instantiated generic types (`G[T]`, `ax.G[T]`, `P2[K, V]`) are constructors of the grammar (tokens, parser, realisation through `Package.Instantiate` / `types.Instantiate`), so type arguments nest arbitrarily with the other constructors. **Round 2:** interface methods now carry signatures (`Printf(T, ...U)`, `Get(T) (U, T)`) in the grammar, the parser of TypeSyntax.tla and the comparison of read-back types; and every term naming an imported type is also declared as the type of a *local* variable after local types named like the imports (`type x int; type x1 = int`) - added after two seeded changes slipped through.""",
 "C14": """Zero.tla states the two demands on a synthesised zero value (accepted where a T is expected; static type exactly T in an inferred position), proves satisfiability for every type of the universe and evaluates the form the implementation chooses (`ImplForm`), thereby *predicting* the deviation class `UntypedZeroForm` (KF-C14-1); the named-struct/array case was fixed (da1024a). Users replayed: `ZeroLit`, `T()`, `ReturnErr`, `ReturnErr(outer)`, omitted optional arguments, each also after operand-rewriting pre-steps (the cached zero element must not be mutated).""",
@@ -341,7 +341,7 @@ w("""
   §5. TLC integers are 32-bit: wide arithmetic is symbolic (GoTypes) or delegated to math/big (C11).
 * **Fragments.** C07 is a fragment of Go's inference (no interface inference, channel directions,
   generic function values as arguments of generic functions: `Id(Id)` does not terminate, a C17
-  matter); C06 has no unary overloaded operators and no overloaded named-type casts; C11 has no tuple casts;
+  matter); C06 has no unary overloaded operators and no overloaded named-type casts; C11's tuple rule (R9) has three shapes and no tuples nested in tuples;
   C12 does not model gofmt's layout (canonicality is the predicate "go/format leaves the text
   unchanged" on specification-enumerated trees and a standard-library corpus); C13 enumerates instantiated generic types but not the declaration of type-parameter lists; C02's statement structure is that of Flow.tla's alphabet (no
   `select` communications with values, no `defer`/`go` bodies beyond C16's protocol).
